@@ -151,7 +151,19 @@ def general_paths(paths):
     for p in paths:
         if "panic" in p.flags:
             continue
-        if any(operand_var(v) for v in p.st.subst):
+        # an operand coordinate pinned to zero (identity) or to an expression of the other operand (equal / opposite
+        # points) is a special position; a coordinate pinned to a non-zero constant (`z == 1` fast paths) is not
+        def special_subst(v, val):
+            if not operand_var(v):
+                return False
+            vs = val.vars() if hasattr(val, "vars") else set()
+            if vs:
+                return True
+            try:
+                return val.is_zero()
+            except Exception:
+                return True
+        if any(special_subst(v, val) for v, val in p.st.subst.items()):
             continue
         special = False
         for c in p.assume:
@@ -166,6 +178,20 @@ def general_paths(paths):
         if not special:
             out.append(p)
     return out
+
+
+def needs_x_test(c, p):
+    """chord formulas (Jacobian add / madd / mmadd) are the group law only for distinct x-coordinates: a path that returns
+    their result must have tested, and excluded, equality of the (scaled) x-coordinates of the two operands"""
+    for cond in p.assume:
+        if cond.kind == "eq" and cond.neg:
+            vs = set()
+            for side in (cond.a, cond.b):
+                if isinstance(side, Q):
+                    vs |= side.vars()
+            if any(v.startswith("p.") for v in vs) and any(v.startswith("q.") for v in vs):
+                return None
+    return "the chord formula is returned on a path that never tested the x-coordinates of the operands for equality (assumptions %s): for P + P it yields Z3 = 0, the identity, instead of 2P" % [str(c_) for c_ in p.assume][:6]
 
 
 def check_identity(rule, key, fn, ex, paths, want_fn, ncoord, to_affine, extra=None):
@@ -225,7 +251,7 @@ def check_sw(res, facts):
         rule.bad("SW::add_assign(&Projective)", "kernel not found")
     else:
         ex, paths = run_paths(facts, add[0], [ref(sw_proj("p")), ref(sw_proj("q"))], models(1))
-        check_identity(rule, "SW::add_assign(&Projective)|general arm", add[0], ex, paths, lambda p: sw_add_affine(P1, P2), 3, sw_affine_of)
+        check_identity(rule, "SW::add_assign(&Projective)|general arm", add[0], ex, paths, lambda p: sw_add_affine(P1, P2), 3, sw_affine_of, extra=needs_x_test)
     # mixed addition
     madd = [f for f in facts.fns(unit="ws", crate="ark_ec") if f.name == "add_assign" and f.self_head == SWP and f.trait_impl == "core::ops::arith::AddAssign" and ((f.impl or {}).get("trait_args") or ["", ""])[1] == "T"]
     if not madd:
@@ -234,7 +260,7 @@ def check_sw(res, facts):
         md = models(1)
         ex, paths = run_paths(facts, madd[0], [ref(sw_proj("p")), ref(sw_aff("q"))], md)
         Qa = (V("q.x"), V("q.y"))
-        check_identity(rule, "SW::add_assign(Affine)|general arm", madd[0], ex, paths, lambda p: sw_add_affine(P1, Qa), 3, sw_affine_of)
+        check_identity(rule, "SW::add_assign(Affine)|general arm", madd[0], ex, paths, lambda p: sw_add_affine(P1, Qa), 3, sw_affine_of, extra=needs_x_test)
     # negation
     neg = find(facts, "neg", SWP, "core::ops::arith::Neg")
     if neg:
